@@ -18,7 +18,10 @@
 EXTENDS Hex, Json, IOUtils
 
 Recs == JsonDeserialize(IOEnv.VERIF_TRACE_FILE).recs
-VARIABLE rec
+VARIABLES rec,     \* the record being judged
+          sob,     \* [block -> set of its six sides as vertex sets]   (computed once, in Init: TLC re-evaluates LET
+          vs,      \* [block -> set of its vertices]                    definitions and operator arguments at every use)
+          adj      \* [block -> blocks it shares a side with]
 Range(f) == { f[x] : x \in DOMAIN f }
 
 V(r, b) == Range(r.blocks[b])
@@ -27,20 +30,18 @@ Blocks(r) == 1..Len(r.blocks)
 Proper(r, b) == Cardinality(V(r, b)) = 8           \* collapsed (wedge-like) blocks are not judged topologically
 
 \* no quad is a side of more than two blocks
-SidesShared(r) == \A b \in Blocks(r) : \A q \in SidesOfBlock(r, b) :
-                     Cardinality({ c \in Blocks(r) : q \in SidesOfBlock(r, c) }) <= 2
+SidesShared(r) == \A b \in Blocks(r) : \A q \in sob[b] : Cardinality({ c \in Blocks(r) : q \in sob[c] }) <= 2
 \* two blocks that have three or more vertices in common have a whole side in common
 WholeSides(r) == \A b, c \in Blocks(r) :
-                    (b < c /\ Proper(r, b) /\ Proper(r, c) /\ Cardinality(V(r, b) \cap V(r, c)) >= 3)
-                    => (V(r, b) \cap V(r, c)) \in (SidesOfBlock(r, b) \cap SidesOfBlock(r, c))
+                    (b < c /\ Cardinality(vs[b]) = 8 /\ Cardinality(vs[c]) = 8 /\ Cardinality(vs[b] \cap vs[c]) >= 3)
+                    => (vs[b] \cap vs[c]) \in (sob[b] \cap sob[c])
 \* the blocks of one shape/assembly are connected through common sides
-Adj(r) == [b \in Blocks(r) |-> { c \in Blocks(r) : c # b /\ SidesOfBlock(r, b) \cap SidesOfBlock(r, c) # {} }]
-RECURSIVE Reach(_, _, _)
-Reach(S, adj, k) == IF k = 0 THEN S ELSE LET S2 == S \cup UNION { adj[s] : s \in S } IN IF S2 = S THEN S ELSE Reach(S2, adj, k - 1)
-Connected(r) == Len(r.blocks) = 0 \/ Reach({1}, Adj(r), Len(r.blocks)) = Blocks(r)
+RECURSIVE Reach(_, _)
+Reach(S, k) == IF k = 0 THEN S ELSE LET S2 == S \cup UNION { adj[x] : x \in S } IN IF S2 = S THEN S ELSE Reach(S2, k - 1)
+Connected(r) == Len(r.blocks) = 0 \/ Reach({1}, Len(r.blocks)) = Blocks(r)
 RightHanded(r) == \A b \in Blocks(r) : \A c \in 1..8 : r.jac[b][c]
 VertexCount(r) == r.exp_nverts = 0 \/ r.nverts = r.exp_nverts
-GroupVerts(r, g) == UNION { V(r, b) : b \in Range(r.groups[g]) }
+GroupVerts(r, g) == UNION { vs[b] : b \in Range(r.groups[g]) }
 Interfaces(r) == \A x \in Range(r.iface) : Cardinality(GroupVerts(r, x[1]) \cap GroupVerts(r, x[2])) = x[3]
 
 Verdict(r) == { c \in {"sides-shared", "whole-sides", "connected", "right-handed", "vertex-count", "arcs-on-circle", "write", "interfaces",
@@ -49,7 +50,11 @@ Verdict(r) == { c \in {"sides-shared", "whole-sides", "connected", "right-handed
                        [] c = "right-handed" -> RightHanded(r) [] c = "vertex-count" -> VertexCount(r) [] c = "arcs-on-circle" -> r.arcs_ok
                        [] c = "write" -> r.write_ok [] c = "interfaces" -> Interfaces(r)
                        [] c = "interface-sides" -> r.opposite_ok) }
-Init == LET rs == Recs IN \E i \in 1..Len(rs) : rec = rs[i]
-Spec == Init /\ [][UNCHANGED rec]_rec
+Init == LET rs == Recs IN \E i \in 1..Len(rs) :
+          /\ rec = rs[i]
+          /\ sob = [b \in Blocks(rs[i]) |-> SidesOfBlock(rs[i], b)]
+          /\ vs = [b \in Blocks(rs[i]) |-> V(rs[i], b)]
+          /\ adj = [b \in Blocks(rs[i]) |-> { c \in Blocks(rs[i]) : c # b /\ SidesOfBlock(rs[i], b) \cap SidesOfBlock(rs[i], c) # {} }]
+Spec == Init /\ [][UNCHANGED <<rec, sob, vs, adj>>]_<<rec, sob, vs, adj>>
 Emit == PrintT(ToJson([id |-> rec.id, fails |-> Verdict(rec)]))
 =============================================================================
